@@ -30,6 +30,8 @@ type Case struct {
 	GapBeforeExchangeNs int64  `json:"gap_before_exchange_ns,omitempty"`
 	FreshB              bool   `json:"fresh_b"`  // B is a brand-new node (its steps are skipped)
 	Exchange            string `json:"exchange"` // a2b | b2a | ab | ba
+	// ClockBase: first stamp of the virtual clock (0 = 1e6; realistic UnixNano values lie beyond 2^53)
+	ClockBase int64 `json:"clock_base,omitempty"`
 }
 
 func run(c Case) (msg string, nontrivial bool) {
@@ -43,6 +45,9 @@ func run(c Case) (msg string, nontrivial bool) {
 	tabs := []*dst.Table{dst.NewTable(), dst.NewTable()}
 	names := []string{"A", "B"}
 	clock := int64(1_000_000)
+	if c.ClockBase != 0 {
+		clock = c.ClockBase
+	}
 	lostRemovalOnA := false
 	for i, s := range c.Steps {
 		if c.FreshB && s.Node == 1 {
@@ -208,6 +213,7 @@ func TestRandom(t *testing.T) {
 			})
 		}
 		c.GapBeforeExchangeNs = rapid.SampledFrom(gaps).Draw(t, "gapBeforeExchange")
+		c.ClockBase = rapid.SampledFrom(dst.ClockBases).Draw(t, "clockBase")
 		check(t, c)
 	})
 }
